@@ -220,3 +220,58 @@ func H_C17_real() {
 		vxrt.Assert(strings.Contains(stored, "\"v\": "+v), "C17:ignored-missing-path-leaves-document-alone")
 	}
 }
+
+// H_C17_more: (a) Type on composite values: an object is not a list and a list is not an object,
+// whichever of the two the matcher expects; (b) two different matchers failing on the same missing
+// path, next to each other: one failure that names both.
+func H_C17_more() {
+	vxrt.CI(false)
+	vxrt.EnvFixed("NO_COLOR", "1")
+	dir := vxrt.Dir()
+	c := WithConfig(Dir(dir), Filename("f"))
+	doc := `{"items":[1,2],"obj":{"a":1},"s":"a"}`
+	standalone := vxrt.Bool("standalone")
+	empty := vxDumpDir(dir)
+	t := vxNewT("TestR")
+	call := func(ms ...match.JSONMatcher) {
+		if standalone {
+			c.MatchStandaloneJSON(t, doc, ms...)
+		} else {
+			c.MatchJSON(t, doc, ms...)
+		}
+		t.end()
+	}
+	if vxrt.Bool("composite-type") {
+		path := []string{"items", "obj"}[vxrt.Choice("path", 2)]
+		wantList := vxrt.Bool("expects-list")
+		if wantList {
+			call(match.Type[[]any](path))
+		} else {
+			call(match.Type[map[string]any](path))
+		}
+		if wantList == (path == "items") {
+			vxrt.Assert(len(t.errors) == 0 && len(t.logs) == 1, "C17:no-failure-comparison-proceeds")
+		} else {
+			vxrt.Assert(len(t.errors) == 1 && len(t.logs) == 0, "C17:matcher-failure-fails-once")
+			vxrt.Assert(vxrt.Eq(vxDumpDir(dir), empty), "C17:matcher-failure-writes-nothing")
+		}
+		return
+	}
+	cb := func(val any) (any, error) { return "c", nil }
+	pair := vxrt.Choice("pair", 3)
+	names := [][2]string{{"Type", "Custom"}, {"Any", "Custom"}, {"Custom", "Type"}}[pair]
+	mk := func(n string) match.JSONMatcher {
+		switch n {
+		case "Type":
+			return match.Type[string]("token")
+		case "Any":
+			return match.Any("token")
+		}
+		return match.Custom("token", cb)
+	}
+	call(mk(names[0]), mk(names[1]))
+	vxrt.Assert(len(t.errors) == 1 && len(t.logs) == 0, "C17:matcher-failure-fails-once")
+	vxrt.Assert(vxrt.Eq(vxDumpDir(dir), empty), "C17:matcher-failure-writes-nothing")
+	msg, _ := t.errors[0].(string)
+	vxrt.Assert(strings.Contains(msg, "match."+names[0]+"(\"token\")") && strings.Contains(msg, "match."+names[1]+"(\"token\")"), "C17:failing-matcher-and-path-named")
+}
